@@ -175,6 +175,13 @@ fn main() {
             }).collect()
         };
         let inp = &v["input"];
+        if inp.get("phase").is_some() {
+            // a case of the supplier stream (bin c10sup): nothing to replay here
+            ctx.rep.note("replay file belongs to the supplier stream: nothing to do");
+            ctx.rep.write(&args.out);
+            println!("c10: 0 cases (replay of another stream)");
+            return;
+        }
         ctx.push(parse(inp["consumer"].as_str().unwrap()), parse(inp["supplier"].as_str().unwrap()));
         ctx.flush();
         ctx.rep.write(&args.out);
